@@ -260,6 +260,8 @@ def main(argv=None):
         "weights are small dyadic rationals (k/4) or ints, so total_weight() is compared exactly; 'to rounding' for general floats is not examined",
         "bounded: items <= 5, insert weights 0..3, increments 0..2, history length as listed in tlc_runs/parts",
     ]
+    from harness import stamina
+    stamina.probe(common.import_eon(), chk)
     return chk.finish(RULE, exhaustive=True)
 
 
